@@ -51,12 +51,8 @@ def _chain(env, periodic, ny=2):
     regs[0].yGroupIndex, regs[1].yGroupIndex = 0, 1
     regs[0].connections = {"inner": None, "outer": None, "lower": 1 if periodic else None, "upper": 1}
     regs[1].connections = {"inner": None, "outer": None, "lower": 0, "upper": 0 if periodic else None}
-    # a region that continues a chain starts at the X-point join: no extension below its first point, so its contours'
-    # distance is measured from that point (startInd = 0, distance[0] = 0)
-    for r in regs.values():
-        if r.connections["lower"] is not None:
-            for c in r.contours:
-                env.assume(env.close(c.d[0], 0.0), "contour of a chain-internal region starts at distance 0")
+    # (a contour's distances are measured from the first point of its FineContour, which lies BEFORE the contour's first point whenever the fine
+    # contour was extended at its lower end - also for a region that continues a chain: d[0] is an arbitrary offset, not assumed to be 0)
     dyv = env.real("dy", pos=True)
     mp = types.SimpleNamespace(regions=regs, equilibrium=types.SimpleNamespace(psi=None), dy_scalar=dyv)
     for r in regs.values():
